@@ -39,7 +39,8 @@ STR_ELEMS = ["a", "b", "c", "dd", "e1", "x_y", "Bob", "k9", "q", "zz", "a-b", "m
 def _gen_ranking_items(w, kind):
     n = w.randint(0, 6)
     if kind == "int":
-        pool = w.sample([0, 1, 2, 3, 7, 10, 11, 42, 100, 2024, 99999], n)
+        pool = w.sample([0, 1, 2, 3, 7, 10, 11, 42, 100, 2024, 99999, 2 ** 53 + 1, 2 ** 63 - 1, 10 ** 18 + 7,
+                         18446744073709551557, 2 ** 53 + 3], n)
     else:
         pool = w.sample(STR_ELEMS, n)
     return gen.gen_ranking(w, pool, 0.0, w.choice([0.0, 0.3, 0.6]), True) if pool else []
